@@ -1,7 +1,39 @@
 """C08 runtime correspondence check (see DESIGN.md)."""
-from . import rtprop
+import os
+from . import rtprop, common, flexrun, rules, rt
 
 THEOREMS = ['FlexVerif.match_conserves', 'FlexVerif.less_conserves', 'FlexVerif.unput_conserves', 'FlexVerif.input_conserves']
+
+
+def known_f08(ctx, results):
+    """targeted probe for known finding F08: %array scanner, yymore() then yyless(n)"""
+    flex, src = flexrun.build_flex()
+    work = flexrun.scratch_root()
+    rs = rules.RuleSet()
+    rs.rules = [{'scs': [], 'all': False, 'bol': False, 'head': ('plus', ('chr', 97)), 'trail': None, 'dollar': False},
+                {'scs': [], 'all': False, 'bol': False, 'head': ('plus', ('chr', 98)), 'trail': None, 'dollar': False}]
+    import random
+    diffs = {}
+    for arr in (False, True):
+        cfg = rt.Config(array=arr, yymore=True)
+        b = rt.build_scanner(flex, src, work, 'c08_f08_%d' % arr, rs, cfg, lex_seed=1)
+        if b['status'] != 'ok':
+            continue
+        ct = rt.case_text(rs, b, cfg, [[97, 97, 98, 98, 98, 97]], ['lex'], acts={0: ['more'], 1: ['less:1']})
+        cfn = os.path.join(work, 'c08_f08.case')
+        open(cfn, 'w').write(ct)
+        real = rt.run_real(b['exe'], cfn)
+        mod = rt.run_model(cfn, spec=True)
+        diffs[arr] = rt.first_diff(real['out'], mod['out'])
+    kf = {f['id']: f for f in common.load_known_findings().get('findings', [])}
+    if diffs.get(True) is not None and diffs.get(False) is None:
+        what = '%array scanner: yyless(n) on a token carrying a yymore() prefix keeps prefix+n characters (a %pointer scanner keeps n): ' + str(diffs[True])
+        if kf.get('F08', {}).get('status') == 'known':
+            print('KNOWN-FINDING: property=C08 ' + what)
+        else:
+            ctx.violation(what, {'finding': 'F08', 'diff': diffs[True]})
+    elif diffs.get(False) is not None:
+        ctx.violation('yymore()+yyless(n) probe: %pointer scanner differs from the specification: ' + str(diffs[False]), {'diff': diffs[False]})
 
 
 def run(ctx):
@@ -9,4 +41,5 @@ def run(ctx):
     plan = [('ops', q1, 8), ('unput', q2, 6)]
     return rtprop.run(ctx, THEOREMS, plan, 'proof',
                       'yymore/yyless/yyunput/yyinput scripts per action execution, %array and %pointer, reentrant and not, small buffers' + '. Kernel-checked theorems about the abstract scanner (listed under obligations) + differential '
-                      'correspondence of the real generated scanner (ASan/UBSan build) with that model on generated cases.')
+                      'correspondence of the real generated scanner (ASan/UBSan build) with that model on generated cases.',
+                      post=known_f08)
